@@ -14,3 +14,10 @@ package prepare
 //@   opt prop=C02
 //@   trusted
 //@   opt maprange1=keyedfiles
+
+// Synchronise.Apply starts from an empty policy directory: RootApparmord is removed before
+// anything is copied, so nothing an earlier run (of any configuration) left there survives.
+//@ func (Synchronise).Apply
+//@   opt prop=C02
+//@   trusted
+//@   opt resetfirst=RootApparmord
